@@ -69,7 +69,8 @@ _CT = ("one generated Kani contract per loop-free world message: the real read_b
 _CTNOTE = ("Trusted: Kani/CBMC, the independent wowm reader spec/wowm.py and walker runtime contracts/kani/spec_rt.rs. Scope: the 1,065 loop-free world messages "
            "(fixed-width scalars, enums/flags, Bool, Guid, PackedGuid, DateTime, small fixed arrays, nested structs, if/else/optional) that verify within the per-harness budget "
            "(container_costs.json; the rest are listed as excluded_for_resources); quick = changed files + seeded sample. NOT decided: messages with strings, variable/endless arrays, masks, splines, "
-           "compressed parts (a bytes-side bounded class for them is implemented but measured infeasible: >120 s each), login messages, opcode dispatch (read_opcodes). "
+           "compressed parts as a class: for 334 of them bounded concrete-shape contracts (gen/shapes.py: branch choice, counts/lengths in {0,1,2}, other bytes symbolic) are generated and run whenever the message's files differ from the baseline, "
+           "but they are unmeasured on the unchanged tree and therefore never counted as proved; login messages are not covered. "
            "ParseError.kind is read through a #[cfg(kani)] accessor appended to the scratch copy of errors.rs.")
 CLAIMED["C01"] = dict(
     technique=_CT + "; clauses: canonical encodings are accepted, fully consumed, and re-encode to identical bytes; hand-written primitive codecs (packed guid, cstring, bool) under their own contracts",
